@@ -192,6 +192,35 @@ func runC02(c *Ctx) {
 			c.fail(c.nm(fn)+" | work comparison", c.P.Pos(fn.Pos()), fmt.Sprintf("expected exactly one big.Int.Cmp work comparison in handleHeadersMsg, found %d", len(cmps)), c.ats(cmps)...)
 			return
 		}
+		// e. ... and nothing but work decides: once the branch is known to
+		// fork at or above the checkpoint floor, every path reaches the work
+		// comparison unless a header of the branch failed validation
+		c.rule("C02.O1", "a valid branch from a listened-to peer is turned down on its work only: in handleHeadersMsg, from the edge on which the fork height is found at or above the checkpoint floor, every path reaches the comparison of the two work totals (knownWork.Cmp(totalWork)); the only ways out before it are the failure edges of error-returning calls (a branch header that fails checkHeaderSanity, a store that cannot be read) - a shortcut that refuses the branch on the number of headers, its length against the displaced part or any other measure treats length as work and refuses shorter, heavier branches", func() {
+			cut := ir.Cut{}
+			// failure edges of error results
+			ir.Instrs(fn, func(in ssa.Instruction) {
+				v, ok := in.(ssa.Value)
+				if !ok {
+					return
+				}
+				call, isCall := in.(*ssa.Call)
+				if !isCall {
+					return
+				}
+				res := call.Call.Signature().Results()
+				for i := 0; i < res.Len(); i++ {
+					if !types.Identical(res.At(i).Type(), types.Universe.Lookup("error").Type()) {
+						continue
+					}
+					for _, r := range ir.Result(v, i) {
+						for _, nb := range ir.NilBranches(r) {
+							cut[nb.Other()] = true
+						}
+					}
+				}
+			})
+			c.mustFollow(fn, "the fork is at or above the checkpoint floor", c.successEdges(g), func(in ssa.Instruction) bool { return in == cmps[0] }, "knownWork.Cmp(totalWork)", cut, 1)
+		})
 		cmp := cmps[0].(ssa.Value)
 		for _, e := range all {
 			set := intSetAt(cmp, []int64{-1, 0, 1}, e.Block())
